@@ -36,7 +36,7 @@ def plan(tier):
 
 @st.composite
 def cases(draw):
-    recipe = draw(gen.problem_recipe(densities=(10, 10, 10, 6, 12), styles=True, offsets=True))
+    recipe = draw(gen.problem_recipe(densities=(10, 10, 10, 6, 12), styles=True, offsets=True, huge=True))
     iters = st.one_of(st.sampled_from([1, 2, 3, 30, 100, 200, 400, 400]), st.integers(5, 400))
     params = draw(gen.solver_params(recipe["n"], recipe["density"], iters, cheap=False))
     sp = draw(gen.start_points(recipe))
@@ -104,6 +104,7 @@ def cross_check_log(run, hist):
 def drive_run(case):
     """Returns (run, hist, degenerate_flag)."""
     run = Run(case["recipe"], case["params"])
+    run.line_guard = bool(case["recipe"].get("huge"))
     if case["drive"] == "solve":
         run.solve()
         return run, run.history(), ("Exception was thrown" in run.stdout())
@@ -173,6 +174,8 @@ def body(case):
                                        ("continued-past-budget" if over else "batches")),
                "family=%s" % case["recipe"]["obj"]["family"]] + (["refined-mid-search"] if refined else []) + \
         (["transient-objective-fault"] if case.get("fault_at") and run.problem.calls >= case["fault_at"] else [])
+    if case["recipe"].get("huge"):
+        classes.append("values-of-magnitude-1e150-and-more")
     if errored:
         if not model.next_is_degenerate():
             fail("the method stopped with an internal exception after %d trials although the decision rule "
